@@ -10,6 +10,7 @@ import warnings
 from lib.common import *
 from lib.oracle import cmp_ast, reparse_diffs, tokens
 from lib.progs import corpus
+from lib import edits
 from props.C11 import stage_translate
 from props.C08 import squash_multiline_strings
 
@@ -452,6 +453,136 @@ def stage_prims(ctx: Ctx):
                 ctx.violation(f'reconcile-struct|prim|{type(a).__name__}->{type(b).__name__}', 'the reconciled tree does not have the edited primitive', {'src': src, 'old': repr(a), 'new': repr(b), 'out_src': out.src, 'diffs': d})
 
 
+PRIM_FIELD_PROGS = [
+    'from . import sibling\nfrom .pkg import a as b, c\nfrom .pkg.mod import name\nfrom ..up import (x,\n    y)\nimport m.n as o, p\n',
+    'async def f(a, *b: int, c=1, **d):\n    r = [x async for x in y]\n    s = {k: v for k, v in z}\n    global g1, g2\n    return f"{r!r:>{w}} {s!s} {a!a} {c}"\n',
+    'class K(B, metaclass=M):\n    def m(self): nonlocal_ = self.attr.sub; return nonlocal_\ntry:\n    pass\nexcept E as err:\n    pass\n',
+    'match v:\n    case {"k": x, **rest}: pass\n    case [a, *others] as whole: pass\n    case C(p, q=r): pass\n    case None | True: pass\n',
+    'def outer():\n    n = 1\n    def inner():\n        nonlocal n\n        n += 1\n    type T[U: int, *Vs, **P] = list[U]\n    x: int = 0\n    (y): int = 1\n    lambda q, /, w=2: (q, w)\n',
+    "a = u'text'\nb = 'plain'\nc = b'bytes'\nd = 1_000\ne = 0x10\nf = 1.50\n",
+]
+
+
+def stage_prim_fields(ctx: Ctx):
+    """deterministic: every primitive field (identifiers, ImportFrom.level, comprehension.is_async, FormattedValue.conversion, operators' owners excluded) of every node
+    of a set of programs changed alone, in place, to another valid value: reconcile() must produce exactly the edited tree and valid source"""
+    import fst
+    IDENT = {('Name', 'id'), ('arg', 'arg'), ('alias', 'name'), ('alias', 'asname'), ('Attribute', 'attr'), ('FunctionDef', 'name'), ('AsyncFunctionDef', 'name'), ('ClassDef', 'name'),
+             ('keyword', 'arg'), ('MatchAs', 'name'), ('MatchStar', 'name'), ('MatchMapping', 'rest'), ('ExceptHandler', 'name'), ('ImportFrom', 'module'), ('TypeVar', 'name'),
+             ('TypeVarTuple', 'name'), ('ParamSpec', 'name')}
+    for src in PRIM_FIELD_PROGS:
+        probe = ast.parse(src)
+        sites = []
+        for n in ast.walk(probe):
+            for fld, v in ast.iter_fields(n):
+                key = (type(n).__name__, fld)
+                if key in IDENT and isinstance(v, str):
+                    sites.append((edits.path_of(probe, n), fld, None, v + '_z'))
+                elif key in (('Global', 'names'), ('Nonlocal', 'names'), ('MatchClass', 'kwd_attrs')) and v:
+                    for i in range(len(v)):
+                        sites.append((edits.path_of(probe, n), fld, i, v[i] + '_z'))
+                elif key == ('ImportFrom', 'level'):
+                    sites += [(edits.path_of(probe, n), fld, None, v + 1), (edits.path_of(probe, n), fld, None, max(0, v - 1) if n.module else v + 2)]
+                elif key == ('comprehension', 'is_async'):
+                    sites.append((edits.path_of(probe, n), fld, None, 1 - v))
+                elif key == ('FormattedValue', 'conversion'):
+                    sites += [(edits.path_of(probe, n), fld, None, c) for c in (-1, 114, 115, 97) if c != v]
+        for path, fld, idx, newv in sites:
+            root = fst.FST(src, 'exec')
+            root.mark()
+            n = edits.node_at(root.a, path)
+            old = getattr(n, fld)
+            if old == newv:
+                continue
+            if idx is None:
+                setattr(n, fld, newv)
+            else:
+                getattr(n, fld)[idx] = newv
+            edited = strip_f(root.a)
+            try:
+                ast.parse(ast.unparse(edited))
+            except Exception:
+                continue       # the edited tree is not a program (e.g. a non-async comprehension turned async outside an async function is fine, a keyword clash is not)
+            rec = {'src': src, 'node': type(n).__name__, 'field': fld, 'idx': idx, 'old': repr(old), 'new': repr(newv)}
+            ctx.tick(('primfield', src, str(path), fld, idx, repr(newv)), 'reconcile:prim-field')
+            try:
+                out = root.reconcile()
+            except Exception as e:
+                ctx.violation(f'reconcile-raise|{type(e).__name__}|{type(n).__name__}.{fld}', 'reconcile() raised on a single primitive change', {**rec, 'error': repr(e)[:200]})
+                continue
+            d = cmp_ast(out.a, edited, positions=False) or reparse_diffs(out)
+            if d:
+                ctx.violation(f'reconcile-struct|prim-field|{type(n).__name__}.{fld}', 'the reconciled tree does not have the edited primitive', {**rec, 'out_src': out.src, 'diffs': d})
+
+
+def stage_foreign_runs(ctx: Ctx):
+    """deterministic: runs of 1..3 consecutive siblings taken from ANOTHER formatted tree and put into the marked tree (statements into a body, elements into a list),
+    where one element of the run was edited in the other tree first: a primitive changed in place, or a child replaced by a brand-new pure AST node. The reconciled
+    tree must be exactly the edited AST (the stale source of the edited foreign element must not be copied)."""
+    import fst
+    import itertools
+    other_src = 'x = 1  # c\ny = f(2, k)\nz = [3, (4, 5)]  # z\nw = {6: 7}\nv = [e1, e2 + 1, e3(9), e4]\n'
+    for target_src, holder_path, fld in (('a = 1\nb = 2\n', [], 'body'), ('def g():\n    a = 1\n    b = 2\n', [('body', 0)], 'body'), ('t = [p, q]\n', [('body', 0), ('value', None)], 'elts')):
+        for start, k in itertools.product(range(0, 4), (1, 2, 3)):
+            for j in range(k):
+                for edit in ('none', 'prim', 'new_child', 'prim_name'):
+                    for at in (0, 1, 2):
+                        root = fst.FST(target_src, 'exec')
+                        root.mark()
+                        other = fst.FST(other_src, 'exec')
+                        if fld == 'body':
+                            run = other.a.body[start:start + k]
+                        else:
+                            run = other.a.body[4].value.elts[start:start + k]
+                        if len(run) != k:
+                            continue
+                        tgt = run[j]
+                        consts = [n for n in ast.walk(tgt) if isinstance(n, ast.Constant)]
+                        names = [n for n in ast.walk(tgt) if isinstance(n, ast.Name)]
+                        if edit == 'prim':
+                            if not consts:
+                                continue
+                            consts[-1].value = 99
+                        elif edit == 'prim_name':
+                            if not names:
+                                continue
+                            names[0].id = 'renamed'
+                        elif edit == 'new_child':
+                            if isinstance(tgt, ast.Assign):
+                                tgt.value = ast.BinOp(left=ast.Name(id='nn', ctx=ast.Load()), op=ast.Add(), right=ast.Constant(value=8))
+                            elif isinstance(tgt, ast.BinOp):
+                                tgt.right = ast.Call(func=ast.Name(id='nn', ctx=ast.Load()), args=[], keywords=[])
+                            elif isinstance(tgt, ast.Call):
+                                tgt.args = [ast.Constant(value=8)]
+                            else:
+                                continue
+                        h = root.a
+                        for f_, i_ in holder_path:
+                            h = getattr(h, f_)
+                            if i_ is not None:
+                                h = h[i_]
+                        lst = getattr(h, fld)
+                        if at > len(lst):
+                            continue
+                        lst[at:at] = run
+                        edited = strip_f(root.a)
+                        try:
+                            ast.parse(ast.unparse(ast.fix_missing_locations(strip_f(root.a))))
+                        except Exception:
+                            continue
+                        rec = {'target': target_src, 'foreign': other_src, 'field': fld, 'run': [start, start + k], 'edited_element': j, 'edit': edit, 'insert_at': at}
+                        ctx.tick(('foreign-run', target_src, fld, start, k, j, edit, at), 'reconcile:foreign-run:' + edit)
+                        try:
+                            out = root.reconcile()
+                        except Exception as e:
+                            ctx.violation(f'reconcile-raise|{type(e).__name__}|foreign-run', 'reconcile() raised on a run of nodes from another tree', {**rec, 'error': repr(e)[:200]})
+                            continue
+                        d = cmp_ast(out.a, edited, positions=False) or reparse_diffs(out)
+                        if d:
+                            ctx.violation(f'reconcile-struct|foreign-run|{edit}', 'the reconciled tree is not the edited AST: an edited node from another tree was copied with its old source',
+                                          {**rec, 'out_src': out.src, 'diffs': d})
+
+
 # ---- correspondence: number of puts of the real reconciler vs models/Reconcile.v ----------------------------------------
 SKIP_FIELDS = ('ctx', 'str', 'lineno', 'col_offset', 'end_lineno', 'end_col_offset', 'kind', 'type_comment')
 
@@ -602,6 +733,8 @@ def run(ctx: Ctx):
     progs = corpus(ctx.rng, gen=ctx.scale(20, 150))
     run_guarded(ctx, stage_oracle, progs)
     run_guarded(ctx, stage_prims)
+    run_guarded(ctx, stage_prim_fields)
+    run_guarded(ctx, stage_foreign_runs)
     run_guarded(ctx, stage_corr, progs)
 
 
